@@ -11,11 +11,27 @@
         `lo2_first_last_reference`  after a successful run from Init (any schedule, any capacity incl. 0 / none)
                                     `GetContact(0)` / `GetContact(N-1)` are the values a reference run whose array holds
                                     everything stores at index 0 / N-1.
+  (2) C05 — uniqueness of the per-line counts of `AfcAssoc` (AuditFixC).
+        `lo2_counts_unique`          `val` spans of the lines in order without overlap (`lo2Apart`) and every counted
+                                     value stored (`n ≤ vals.size`) ⇒ two count lists satisfying `AfcBlocks` are equal
+        `lo2Apart_of_stored`         `lo2Apart` follows from `HlsLo` (FieldsLo) when every accepted line is stored
+        `lo2_msg_counts_unique`      message level, contacts and identities
+        `lo2_contact_counts_exists_unique_init`  one ParseSIPMsg call from Init: exactly one count list
+      NOT claimed: uniqueness when contact VALUES were dropped (false: with capacity 0 every count list fits) or when
+      header lines were dropped (the order of lines that are not stored is not derived).
+  (3) C07 — `lo2_block_verdicts_in`, `lo2_block_verdicts_schedule_in`: the verdict list with the generic-treatment
+      hypothesis restricted to the line starts below a bound `e'` chosen by the caller: verdict ∈ {OK, empty, MoreBytes,
+      BadChar} or the text holds well-formed header lines from `o` up to a line start ≥ `e'` (`lo2Lines`).  This is the
+      weaker form; the form with `e'` = the returned offset of a rejected block (needs: the returned offset of an
+      error verdict is at or after the start of the rejected line, for typed lines as well) is NOT proved.
+  (4) IPv6 — `lo2_i6_contains_first`: ContainsIP6 reports the first accepted candidate in the order of trial
+      (`lo2I6Found`).  NOT proved: that the accepted prefix at a position is the longest scanner text there.
 -/
 import Sipsp.Proofs.CapacityExtra
 import Sipsp.Proofs.HdrSpec
 import Sipsp.Proofs.AuditFixC
 import Sipsp.Proofs.FieldsLo
+import Sipsp.Proofs.IP6Spec
 
 namespace Sipsp
 
@@ -568,5 +584,55 @@ example : ((resumeRun afbHeadersP 0 (hsNew 1, rcHb false 0) afcExGCuts).2.1 = .o
     (fun _ _ => Nat.zero_le _) 12 (afcExG_generic_in _)
 -- test: here the first alternative is the one that holds
 example : (resumeRun afbHeadersP 0 (hsNew 1, rcHb false 0) afcExGCuts).2.1 = .ok := by decide +kernel
+
+/-! ## (4) IPv6: ContainsIP6 reports the FIRST accepted candidate in the order in which it tries positions
+
+  Order of the tried positions, made explicit by `lo2I6Found b i d p`: the search (re)started at `i` goes from colon to
+  colon (`indexByteFrom`); for the colon at `d0` it tries the window `[d0-5, d0)` (or `[i, d0)` when `d0 < 5`) in
+  ascending order; if every position of the window is rejected it restarts at `d0 + 1`.  `p` is reported for the colon
+  `d` when every window before was rejected entirely and `p` is the least accepted position of the window of `d`.
+  (Windows of successive colons can overlap, and a later window can reach further LEFT than an earlier reported
+  position would: the statement is about the order of trial, not about the smallest position of the whole buffer.) -/
+
+/-- first position of the window tried for the colon at `d` when the search was (re)started at `i` -/
+def lo2I6Win (i d : Nat) : Nat := if d ≥ 5 then d - 5 else i
+
+inductive lo2I6Found (b : Buf) : Nat → Nat → Nat → Prop
+  | here (i d p : Nat) : i < b.size → indexByteFrom b i 58 = some d → lo2I6Win i d ≤ p → p < d →
+      (ip6PrefixAt b p).1 = true → (∀ k, lo2I6Win i d ≤ k → k < p → (ip6PrefixAt b k).1 = false) → lo2I6Found b i d p
+  | later (i d0 d p : Nat) : i < b.size → indexByteFrom b i 58 = some d0 →
+      (∀ k, lo2I6Win i d0 ≤ k → k < d0 → (ip6PrefixAt b k).1 = false) → lo2I6Found b (d0 + 1) d p →
+      lo2I6Found b i d p
+
+theorem lo2_i6_loop_first (b : Buf) (i : Nat) {r : Nat × Nat × Array Nat × Bool}
+    (h : containsIP6Loop b i = some r) : ∃ d, lo2I6Found b i d r.1 := by
+  fun_induction containsIP6Loop b i with
+  | case1 i hlt hidx => cases h
+  | case2 i hlt dOffs hidx offs r' htry =>
+    cases h
+    obtain ⟨h1, h2, _, ⟨e, h4⟩, h5⟩ := i6_try_some b offs dOffs htry
+    exact ⟨dOffs, lo2I6Found.here i dOffs r.1 hlt hidx h1 h2 (by rw [h4]) h5⟩
+  | case3 i hlt dOffs hidx offs htry hg ih =>
+    obtain ⟨d, hf⟩ := ih h
+    exact ⟨d, lo2I6Found.later i dOffs d r.1 hlt hidx (i6_try_none b offs dOffs htry) hf⟩
+  | case4 i hlt dOffs hidx offs htry hg => cases h
+  | case5 i hlt => cases h
+
+/-- **ContainsIP6 reports the first accepted candidate in trial order** -/
+theorem lo2_i6_contains_first (b : Buf) {r : Nat × Nat × Array Nat × Bool} (h : containsIP6 b = some r) :
+    ∃ d, lo2I6Found b 0 d r.1 := lo2_i6_loop_first b 0 h
+
+/-! test / non-vacuity for (4): in "ab 1::2" the colon at 4 gives the window [0, 4); positions 0, 1, 2 are rejected,
+    position 3 is reported -/
+def lo2Ex6 : Buf := "ab 1::2".toUTF8.data
+theorem lo2Ex6_pos : (containsIP6 lo2Ex6).map (·.1) = some 3 := by decide +kernel
+example : ∃ d, lo2I6Found lo2Ex6 0 d 3 := by
+  have hp := lo2Ex6_pos
+  rcases hc : containsIP6 lo2Ex6 with _ | r
+  · rw [hc] at hp; cases hp
+  · rw [hc] at hp
+    have h3 : r.1 = 3 := by simpa using hp
+    rw [← h3]
+    exact lo2_i6_contains_first lo2Ex6 hc
 
 end Sipsp
